@@ -134,8 +134,18 @@ def build_loss(c, kind, sel, tp, ts_sel, n, weighted, spread_form, time_kind="sy
     else:
         obj = cls(theta_arg, m, L.x0, L.t0, t_arg, y_arg, sn, w_arg, sp_arg, **kw)
     L.obj, L.model, L.theta_arg = obj, m, theta_arg
+    # purity: what the caller handed in (theta, x0, observations, times, weights) must not be modified by any call
+    from .stoch import snapshot
+    L.caller_arrays = [(nm, a, snapshot(a)) for nm, a in (("theta", theta_arg), ("x0", L.x0), ("y", y_arg), ("t", t_arg), ("weights", w_arg))
+                       if isinstance(a, np.ndarray)]
     L.idx = [STATES.index(s) for s in sel]
     return L
+
+
+def check_purity(c, L, label=""):
+    from .stoch import unchanged
+    for nm, a, snap in getattr(L, "caller_arrays", []):
+        c.prove(unchanged(a, snap, c), "the %s array handed in by the caller is not modified%s" % (nm, label))
 
 
 def ref_cost(c, L, yhat):
@@ -211,6 +221,7 @@ def cost_unit(kind, sel, tp, n, weighted=False, spread_form="scalar", entry="cos
             rows = ref_solution([L.bound["beta"], L.bound["gamma"]], x0_used, L.t0, L.t)
         yhat = [[rows[i][k] for k in L.idx] for i in range(L.n)]
         c.reachable("loss evaluated")
+        check_purity(c, L)
         if entry == "residual":
             ref = [[(L.y[i][j] - yhat[i][j]) * L.w[i][j] for j in range(len(sel))] for i in range(n)]
             got = np.asarray(out, dtype=object)
